@@ -630,9 +630,65 @@ func genHostile(t *rapid.T) Case {
 	return c
 }
 
+// genMirror: 2-3 modules of one shape (names of equal length, the same layout) whose typedefs, groupings or
+// identities form a cycle through the imports, so that the statements involved stand at the same line and column
+// of their texts; the texts are handed over under one source name (or, as a control, under their own).
+func genMirror(t *rapid.T) Case {
+	n := rapid.IntRange(2, 3).Draw(t, "mirror-modules")
+	kind := rapid.SampledFrom([]string{"typedef", "grouping", "identity", "typedef-union", "mixed"}).Draw(t, "mirror-kind")
+	oneName := rapid.IntRange(0, 3).Draw(t, "mirror-one-name") != 0
+	c := Case{Runs: 6, Lenient: true, Features: []string{"mirror/" + kind}}
+	if oneName {
+		c.Features = append(c.Features, "one-source-name")
+	}
+	for i := 0; i < n; i++ {
+		me, next := fmt.Sprintf("m%c", 'a'+i), fmt.Sprintf("m%c", 'a'+(i+1)%n)
+		x, y := me[1:], next[1:] // what a module defines carries its letter: the messages differ, the layout does not
+		var body string
+		switch kind {
+		case "typedef":
+			body = fmt.Sprintf("  typedef t%s { type %s:t%s; }\n  leaf l { type t%s; }\n", x, next, y, x)
+		case "typedef-union":
+			body = fmt.Sprintf("  typedef t%s { type union { type string; type %s:t%s; } }\n  leaf l { type t%s; }\n", x, next, y, x)
+		case "grouping":
+			body = fmt.Sprintf("  grouping g%s { leaf x { type string; } uses %s:g%s; }\n  container c { uses g%s; }\n", x, next, y, x)
+		case "identity":
+			body = fmt.Sprintf("  identity i%s { base %s:i%s; }\n  leaf l { type identityref { base i%s; } }\n", x, next, y, x)
+		default:
+			body = fmt.Sprintf("  typedef t%s { type %s:t%s; }\n  grouping g%s { uses %s:g%s; }\n  container c { uses g%s; leaf l { type t%s; } }\n  leaf u { type %s:nosuch; }\n", x, next, y, x, next, y, x, x, next)
+		}
+		name := me + ".yang"
+		if oneName {
+			name = "input.yang"
+		}
+		c.Sources = append(c.Sources, ymodel.Source{Name: name, Text: fmt.Sprintf("module %s {\n  namespace \"urn:%s\";\n  prefix %s;\n  import %s { prefix %s; }\n%s}\n", me, me, me, next, next, body)})
+	}
+	idx := make([]int, n)
+	for i := range idx {
+		idx[i] = i
+	}
+	var rec func(k int)
+	rec = func(k int) {
+		if k == n {
+			c.Perms = append(c.Perms, append([]int(nil), idx...))
+			return
+		}
+		for i := k; i < n; i++ {
+			idx[k], idx[i] = idx[i], idx[k]
+			rec(k + 1)
+			idx[k], idx[i] = idx[i], idx[k]
+		}
+	}
+	rec(0)
+	return c
+}
+
 func gen(t *rapid.T) Case {
 	if rapid.IntRange(0, 7).Draw(t, "revision-scenario") == 0 {
 		return genRevisions(t)
+	}
+	if rapid.IntRange(0, 19).Draw(t, "mirror-scenario") == 0 {
+		return genMirror(t)
 	}
 	if rapid.IntRange(0, 4).Draw(t, "hostile-scenario") == 0 {
 		return genHostile(t)
@@ -699,6 +755,14 @@ func gen(t *rapid.T) Case {
 		}
 	}
 	c.CLI = rapid.IntRange(0, 11).Draw(t, "cli") == 0
+	if !c.CLI && rapid.IntRange(0, 7).Draw(t, "one-source-name") == 0 {
+		// the caller hands every text over under one name (Modules.Parse takes any string): positions
+		// in different texts then compare equal, and nothing but the texts themselves may decide an order
+		for i := range c.Sources {
+			c.Sources[i].Name = "input.yang"
+		}
+		c.Features = append(c.Features, "one-source-name")
+	}
 	return c
 }
 
